@@ -179,6 +179,98 @@ func census(r *lib.Run) {
 	}
 	r.Case("reach", anchors, strings.Join(anchors, ","))
 	r.Stat("class.reach", 1)
+	// buffer pool discipline: every function that takes a buffer from the shared pool, with its Get / deferred Put / other Put counts
+	pt := poolCensus(r)
+	r.Case("pool", pt, strings.Join(pt, ","))
+	r.Stat("class.pool", 1)
+}
+
+// poolCensus reads the pool discipline off the source (every package): for every function declaration that
+// mentions EtherBufferPool, "dir:Receiver.Name:g/d/p" with g = calls of EtherBufferPool.Get, d = `defer
+// EtherBufferPool.Put(x)` statements directly in the function body whose x is a variable assigned from a Get of
+// this function, p = every other Put (not deferred, in a branch or a function literal, or of something else).
+// The model (Model/SendPool.v) assumes g = d and p = 0 everywhere: each buffer is returned exactly once, on
+// every path.  No names of locals or receivers in the tokens.
+func poolCensus(r *lib.Run) []string {
+	root := os.Getenv("VERIF_REPO")
+	if root == "" {
+		root = "/repo"
+	}
+	toks := []string{}
+	fset := token.NewFileSet()
+	filepath.Walk(root, func(path string, info os.FileInfo, err error) error {
+		if err != nil {
+			return nil
+		}
+		if info.IsDir() {
+			if n := info.Name(); n == "examples" || n == ".git" || n == "vendor" {
+				return filepath.SkipDir
+			}
+			return nil
+		}
+		if !strings.HasSuffix(path, ".go") || strings.HasSuffix(path, "_test.go") {
+			return nil
+		}
+		f, err := parser.ParseFile(fset, path, nil, 0)
+		if err != nil {
+			return nil
+		}
+		dir, _ := filepath.Rel(root, filepath.Dir(path))
+		isPool := func(call *ast.CallExpr, method string) bool {
+			sel, ok := call.Fun.(*ast.SelectorExpr)
+			return ok && sel.Sel.Name == method && strings.HasSuffix(exprString(sel.X), "EtherBufferPool")
+		}
+		for _, d := range f.Decls {
+			fd, ok := d.(*ast.FuncDecl)
+			if !ok || fd.Body == nil {
+				continue
+			}
+			gets, defers, puts := 0, 0, 0
+			got := map[string]bool{}
+			ast.Inspect(fd.Body, func(x ast.Node) bool {
+				if as, ok := x.(*ast.AssignStmt); ok && len(as.Lhs) == 1 && len(as.Rhs) == 1 {
+					found := false
+					ast.Inspect(as.Rhs[0], func(y ast.Node) bool {
+						if c, ok := y.(*ast.CallExpr); ok && isPool(c, "Get") {
+							found = true
+						}
+						return true
+					})
+					if id, ok := as.Lhs[0].(*ast.Ident); ok && found {
+						got[id.Name] = true
+					}
+				}
+				if c, ok := x.(*ast.CallExpr); ok {
+					if isPool(c, "Get") {
+						gets++
+					}
+					if isPool(c, "Put") {
+						puts++
+					}
+				}
+				return true
+			})
+			for _, st := range fd.Body.List {
+				if ds, ok := st.(*ast.DeferStmt); ok && isPool(ds.Call, "Put") && len(ds.Call.Args) == 1 {
+					if id, ok := ds.Call.Args[0].(*ast.Ident); ok && got[id.Name] {
+						defers++
+						puts--
+					}
+				}
+			}
+			if gets+defers+puts == 0 {
+				continue
+			}
+			recv := ""
+			if fd.Recv != nil && len(fd.Recv.List) == 1 {
+				recv = strings.TrimPrefix(exprString(fd.Recv.List[0].Type), "*") + "."
+			}
+			toks = append(toks, fmt.Sprintf("%s:%s%s:%d/%d/%d", filepath.ToSlash(dir), recv, fd.Name.Name, gets, defers, puts))
+		}
+		return nil
+	})
+	sort.Strings(toks)
+	return toks
 }
 
 // reachClass mirrors send_reach of coq/Extract/D07.v (first word of the classification).
